@@ -51,8 +51,9 @@ Judge(c) ==
       rd   == RT!RunDupAt(cur, IsComment, SameText)
       rd1  == IF pass = 1 /\ ~c.src THEN RT!RunDupAt(prev, IsComment, SameText) ELSE {}
   IN
-  /\ dropped # {} => PrintT("DIVERGE " \o ToJson([id |-> c.id, pass |-> pass,
-                                                  n |-> Cardinality(dropped)]))
+  /\ IF dropped # {}
+     THEN PrintT("DIVERGE " \o ToJson([id |-> c.id, pass |-> pass, n |-> Cardinality(dropped)]))
+     ELSE TRUE
   /\ IF ~RT!NoLoss(prev, cur, KeepsLoss)
      THEN LET i == RT!RTFirst(prev, LAMBDA x : x \in lost) IN
           Verdict(c, "NoLoss", [pos |-> i, item |-> prev[i], n |-> Cardinality(lost)])
